@@ -237,6 +237,16 @@ func mGenFiles() []*mFile {
 		f1 := newFile()
 		f1.decls = append(f1.decls, mDecl{extend: true, name: "t", rels: []mRel{
 			{name: zzverif.Str("rel", 1, 2, mNames), form: 0}, {name: zzverif.Str("rel", 1, 2, mNames), form: 1}}})
+	case 5:
+		// a base type with two relations and one extension block that declares two relations:
+		// zero, one or two conflicts, in either textual order
+		f0 := newFile()
+		f0.decls = append(f0.decls, mDecl{name: "t", rels: []mRel{{name: zzverif.Str("rel", 1, nr, mNames), form: 0}, {name: zzverif.Str("rel", 1, nr, mNames), form: 1}}})
+		f1 := newFile()
+		f1.decls = append(f1.decls, mDecl{extend: true, name: "u", rels: []mRel{{name: zzverif.Str("rel", 1, nr, mNames), form: 1}}},
+			mDecl{extend: true, name: "t", rels: []mRel{{name: zzverif.Str("rel", 1, nr, mNames), form: 0}, {name: zzverif.Str("rel", 1, nr, mNames), form: 1}}})
+		f2 := newFile()
+		f2.decls = append(f2.decls, mDecl{name: "u"})
 	case 2:
 		f0 := newFile()
 		f0.decls = append(f0.decls, mDecl{name: zzverif.Str("type", 1, n, mNames)})
